@@ -298,3 +298,7 @@ def _(run):
         cond = z3.And(given_none, z3.Or(z3.Not(hints), fetch_fails), rns != SV('http://www.w3.org/2001/XMLSchema'), z3.Not(z3.Bool('root_has_xsi_type')), st.env['validation'].t != SV('skip'), z3.Or(cls_none, cls_ok))
         return z3.Implies(cond, z3.BoolVal(kind == 'raise' and isinstance(v, VExc) and v.cls is XMLSchemaValueError))
     run.post(ex, outs, pre, {'a-given-instance-that-knows-the-root-namespace-is-returned-as-it-is': keeps, 'no-schema-argument-and-no-hint-is-an-error': never_from_nothing})
+mk('loaders.SchemaLoader.load_schema.propagation', ['C09', 'C12'], 'xmlschema/loaders.py', 'SchemaLoader.load_schema', 'schema_class',
+   dict(source='source', namespace='namespace', global_maps='self.maps', base_url='base_url or self.maps.settings.base_url'),
+   note='a document that is not loaded yet is built with the base URL of the document that refers to it (the argument) and only without one with the base the caller named for '
+        'the main source: relative locations resolve from the referring document, and its directory stays the sandbox root')
